@@ -266,7 +266,10 @@ func (s *sim) guard(op string, f func()) (panicked bool) {
 			s.w.Violate(rep.PanicSig(op+"|"+s.h.runtime, p, debug.Stack()), fmt.Sprintf("%s on %s: %v", op, s.h.name, p))
 		}
 	}()
+	opName := op
+	s.w.WatchBegin(&opName)
 	f()
+	s.w.WatchEnd()
 	return false
 }
 
